@@ -292,6 +292,21 @@ Goal forall uc cfg st0 plan files fin,
                       Proofs.C01.groups_fit TypeScript (flat_map ir_groups items) (obs_groups (map ts_obs ds)).
 Proof. exact Props.C01.C01_multi_run_typescript. Qed.
 Print Assumptions Props.C01.C01_multi_run_typescript.
+Goal forall uc cfg st0 plan files fin,
+    generate_crates (Proofs.C12Multi.py_multi_gen uc cfg) st0 plan = (files, fin) ->
+    forall i fname text,
+      nth_error files i = Some (fname, Writer.Generated text) ->
+      exists p st_i st_i' ds,
+        nth_error plan i = Some p /\ fname = op_file p /\
+        py_generate_multi uc cfg st_i (op_data p) = Ok (text, st_i') /\
+        Proofs.C12Multi.py_multi_decls uc cfg st_i (op_data p) = Ok (ds, st_i') /\
+        text = py_begin_file cfg ++ py_write_all_imports st_i' ++ py_write_custom_translations st_i' ++
+               List.concat (map py_render_decl ds) /\
+        (exists st1, py_decls uc cfg (op_data p) = Ok (ds, st1)) /\
+        exists items, Permutation items (items_of (op_data p)) /\
+                      Proofs.C01.groups_fit Python (flat_map ir_groups items) (obs_groups (flat_map py_obs ds)).
+Proof. exact Props.C01.C01_multi_run_python. Qed.
+Print Assumptions Props.C01.C01_multi_run_python.
 Goal exists pa pb dsa st_a dsb st_b st_b0 fd,
     Proofs.C12MultiWitness.y_plan Python Proofs.C12MultiWitness.ws_py_again = Some [pa; pb] /\
     map op_crate [pa; pb] = [lit "alpha"; lit "beta"] /\
@@ -307,3 +322,20 @@ Goal exists pa pb dsa st_a dsb st_b st_b0 fd,
     fd_decls fd = map py_helper_decl [lit "U"; lit "serialize_datetime_data"; lit "parse_rfc3339"] ++ flat_map py_obs dsb.
 Proof. exact Props.C01.C01_multi_same_decls_nonvacuous. Qed.
 Print Assumptions Props.C01.C01_multi_same_decls_nonvacuous.
+Goal (exists pa pb dsa dsb,
+     Proofs.C12MultiWitness.y_plan TypeScript Proofs.C12MultiWitness.ws_py_plain = Some [pa; pb] /\
+     Proofs.C12MultiTS.ts_multi_decls uc_exec Proofs.C12MultiWitness.y_ts_cfg [] (op_data pa) = Ok (dsa, [(lit "Date", [lit "at"])]) /\
+     Proofs.C12MultiTS.ts_multi_decls uc_exec Proofs.C12MultiWitness.y_ts_cfg [(lit "Date", [lit "at"])] (op_data pb) = Ok (dsb, [(lit "Date", [lit "at"])]) /\
+     Proofs.C12MultiTS.ts_multi_decls uc_exec Proofs.C12MultiWitness.y_ts_cfg [] (op_data pb) = Ok (dsb, []) /\ List.length dsb = 1%nat) /\
+  (exists pa pb dsa dsb,
+     Proofs.C12MultiWitness.y_plan Swift Proofs.C12MultiWitness.ws_sw_unit = Some [pa; pb] /\
+     Proofs.C12MultiSwift.sw_multi_decls uc_exec Proofs.C12MultiWitness.y_sw_cfg false (op_data pa) = Ok (dsa, true) /\
+     Proofs.C12MultiSwift.sw_multi_decls uc_exec Proofs.C12MultiWitness.y_sw_cfg true (op_data pb) = Ok (dsb, true) /\
+     Proofs.C12MultiSwift.sw_multi_decls uc_exec Proofs.C12MultiWitness.y_sw_cfg false (op_data pb) = Ok (dsb, false) /\ List.length dsb = 1%nat) /\
+  (exists pa pb dsa dsb,
+     Proofs.C12MultiWitness.y_plan Go Proofs.C12MultiWitness.ws_py_plain = Some [pa; pb] /\
+     Proofs.C12MultiGo.go_multi_decls uc_exec Proofs.C12MultiWitness.y_go_cfg [] (op_data pa) = Ok (dsa, [lit "encoding/json"; lit "time"]) /\
+     Proofs.C12MultiGo.go_multi_decls uc_exec Proofs.C12MultiWitness.y_go_cfg [lit "encoding/json"; lit "time"] (op_data pb) = Ok (dsb, [lit "encoding/json"; lit "time"]) /\
+     Proofs.C12MultiGo.go_multi_decls uc_exec Proofs.C12MultiWitness.y_go_cfg [] (op_data pb) = Ok (dsb, [lit "encoding/json"]) /\ List.length dsb = 1%nat).
+Proof. exact Props.C01.C01_multi_same_decls_nonvacuous_ts_sw_go. Qed.
+Print Assumptions Props.C01.C01_multi_same_decls_nonvacuous_ts_sw_go.
